@@ -52,6 +52,8 @@ class ContractDef:
         self.lemmas = opts.pop('lemmas', ())
         self.patches = opts.pop('patches', ())
         self.no_crosscheck = opts.pop('no_crosscheck', False)
+        # native_only: the clauses are evaluated on sampled native runs only (run-time contract check) - a bounded stand-in, never 'proved'
+        self.native_only = opts.pop('native_only', False)
         self.rng_calls = opts.pop('rng_calls', None)
         # values for which `x == literal` tests on symbolic x are assumed false (excluded inputs, listed in the evidence)
         self.skip_eq_literals = tuple(Fraction(v) for v in opts.pop('skip_eq_literals', ()))
@@ -332,6 +334,14 @@ class Ctx:
             self.obls.append({'name': name, 'kind': 'ensures', 'pc': list(self.path.pc), 'cond': _zb(cond)})
         else:
             self.obls.append((name, self._truth(cond), detail))
+
+    def native_ensures(self, name, thunk, detail=None):
+        """a clause that only a native execution can evaluate (file formats, YAML text, numpy's generator): evaluated on every native
+        run (cross-check / replay); symbolically it is recorded as a *native* obligation - reported as bounded, never counted as proved"""
+        if self.symbolic:
+            self.obls.append({'name': name, 'kind': 'native', 'pc': [], 'cond': z3.BoolVal(True)})
+        else:
+            self.obls.append((name, self._truth(thunk() if callable(thunk) else thunk), detail))
 
     def canary(self, name, cond):
         """a clause that must NOT be provable (guards against vacuity / an unsound engine)"""
@@ -956,6 +966,28 @@ def verify_contract(cdef, tier='quick', seed=0, refuted=None):
            'doc': cdef.doc, 'bounded': cdef.bounded, 'obligations': {}, 'paths': 0, 'undecided': [],
            'source_hashes': {t: source_hash(t) for t in cdef.targets},
            'samples': [], 'solver_s': 0.0, 'vcs': 0, 'lemma_uses': []}
+    if cdef.native_only:
+        # bounded stand-in: no symbolic run; every clause is evaluated on n sampled native executions of the real code
+        n = int(os.environ.get('VERIF_CROSS', '25' if tier == 'quick' else '400'))
+        cc = crosscheck(cdef, n, seed)
+        out['bounded'] = (cdef.bounded or '') + " [native sampling only: %d runs, seed %s]" % (cc['runs'], seed)
+        for name, cnt in cc['clauses'].items():
+            out['obligations'][name] = {'name': "%s/%s" % (cdef.ident, name), 'kind': 'ensures', 'status': 'discharged', 'vcs': cnt,
+                                        'backends': {'native-sampling': cnt}, 'solver_s': 0.0, 'detail': None, 'replay': None}
+        for f in cc['failures']:
+            o = out['obligations'].setdefault(f['clause'], {'name': "%s/%s" % (cdef.ident, f['clause']), 'kind': 'ensures', 'vcs': 1,
+                                                             'backends': {'native-sampling': 1}, 'solver_s': 0.0})
+            o['status'] = 'violated'
+            o['replay'] = {'clause': f['clause'], 'reproduced': True, 'how': 'native-crosscheck', 'inputs': f['inputs'], 'observed': f['observed'],
+                           'summary': "clause '%s' fails natively on a sampled input" % f['clause']}
+            o['detail'] = o['replay']['summary']
+        out['vcs'] = cc['clause_evals']
+        out['paths'] = cc['runs']
+        out['native_only_stats'] = {k: v for k, v in cc.items() if k != 'failures'}
+        if not cc['clauses'] and not cc['failures']:
+            out['undecided'].append("native-only contract evaluated no clause")
+        out['wall_s'] = time.time() - t_start
+        return out
     try:
         runs, truncated = explore(cdef)
     except Exception as e:
@@ -1005,6 +1037,11 @@ def verify_contract(cdef, tier='quick', seed=0, refuted=None):
             records.append({'name': 'no-unexpected-exception', 'kind': 'ensures', 'pc': list(path.pc),
                             'cond': z3.BoolVal(False), 'exc': run.exc, 'tb': run.tb})
         for rec in records:
+            if rec['kind'] == 'native':
+                o = ob(rec['name'], 'ensures')
+                o['native'] = True
+                o['backends'].setdefault('native-sampling', 0)
+                continue
             o = ob(rec['name'], rec['kind'])
             cond = z3.simplify(rec['cond'])
             key = (rec['name'], tuple(sorted(p.get_id() for p in rec['pc'])), cond.get_id())
@@ -1134,7 +1171,7 @@ def crosscheck(cdef, n, seed):
     """randomised native evaluation of every clause (engine vs CPython guard and
     run-time contract monitor): returns counts and the first failure"""
     rng = random.Random(seed)
-    stats = {'runs': 0, 'rejected': 0, 'clause_evals': 0, 'failures': []}
+    stats = {'runs': 0, 'rejected': 0, 'clause_evals': 0, 'failures': [], 'clauses': {}}
     tries = 0
     while stats['runs'] < n and tries < n * 20:
         tries += 1
@@ -1149,6 +1186,7 @@ def crosscheck(cdef, n, seed):
             continue
         for name, ok, detail in res:
             stats['clause_evals'] += 1
+            stats['clauses'][name] = stats['clauses'].get(name, 0) + 1
             if not ok and len(stats['failures']) < 5:
                 stats['failures'].append({'clause': name, 'inputs': {k: _jsonable(v) for k, v in used.items()},
                                           'observed': str(detail)[:300]})
